@@ -425,6 +425,57 @@ def in_thread(fn, *a):
 # child interpreters started with PYTHONOPTIMIZE=1 / 2 (assert statements, then docstrings, compiled away)
 # --------------------------------------------------------------------------------------------------
 
+def reload_target():
+    """
+    every module of the package executed again, twice in a row, in dependency order (found from the import statements):
+    what an auto-reloading shell or server does.  A module body with a non-idempotent effect on ANOTHER module's data
+    (a table scaled in place at import ...) shows only then.  All objects are created after the reload.
+    """
+    import ast
+    import pkgutil
+    import cvss
+    names = ["cvss"] + ["cvss." + m.name for m in pkgutil.iter_modules(cvss.__path__)]
+    mods, deps = {}, {}
+    for n in names:
+        try:
+            mods[n] = importlib.import_module(n)
+        except Exception:
+            continue
+    for n, m in mods.items():
+        deps[n] = set()
+        try:
+            with open(m.__file__.replace(".pyc", ".py")) as f:
+                tree = ast.parse(f.read())
+        except Exception:
+            continue
+        for node in ast.walk(tree):
+            if isinstance(node, ast.ImportFrom):
+                base = ("cvss" + ("." + node.module if node.module else "")) if node.level else (node.module or "")
+                cands = [base] + [base + "." + a.name for a in node.names]
+            elif isinstance(node, ast.Import):
+                cands = [a.name for a in node.names]
+            else:
+                continue
+            deps[n].update(c for c in cands if c in mods and c != n)
+    if "cvss" in deps:
+        deps["cvss"].discard("cvss.cvss_calculator")
+    order, seen = [], set()
+
+    def visit(n, stack=()):
+        if n in seen or n in stack:
+            return
+        for d in sorted(deps.get(n, ())):
+            visit(d, stack + (n,))
+        seen.add(n)
+        order.append(n)
+    for n in sorted(mods):
+        visit(n)
+    for n in order:
+        importlib.reload(mods[n])
+        importlib.reload(mods[n])
+    return order
+
+
 def batch_main(pid, mod, infile, outfile):
     """child side: run [check, input] pairs, write the failures"""
     with open(infile) as f:
@@ -464,10 +515,13 @@ def interpreter_modes(part, tier):
     for it in items:
         if isinstance(it[1], dict):
             it[1] = dict((k, x) for k, x in it[1].items() if not str(k).startswith("_"))
-    modes = [("1", "python -O")] if tier == "quick" else [("1", "python -O"), ("2", "python -OO")]
+    modes = [({"PYTHONOPTIMIZE": "1"}, "python -O"), ({"VERIF_RELOAD": "1"}, "modules reloaded")]
+    if tier != "quick":
+        modes.append(({"PYTHONOPTIMIZE": "2"}, "python -OO"))
     d = tempfile.mkdtemp(prefix="vfmodes")
     try:
-        for level, label in modes:
+        for menv, label in modes:
+            level = "".join(sorted(menv.values())) + sorted(menv)[0][-3:]
             n = min(NPROC, max(1, len(items) // 4))
             procs = []
             for j in range(n):
@@ -475,8 +529,8 @@ def interpreter_modes(part, tier):
                 fin, fout = os.path.join(d, "in%s-%d.json" % (level, j)), os.path.join(d, "out%s-%d.json" % (level, j))
                 with open(fin, "w") as f:
                     json.dump(chunk, f)
-                env = dict(os.environ, VERIF_REPO=REPO, VERIF_OUT=d, VERIF_INTERP=level, PYTHONOPTIMIZE=level,
-                           PYTHONDONTWRITEBYTECODE="1", VERIF_NPROC="1")
+                env = dict(os.environ, VERIF_REPO=REPO, VERIF_OUT=d, VERIF_INTERP=level, PYTHONDONTWRITEBYTECODE="1", VERIF_NPROC="1")
+                env.update(menv)
                 procs.append((subprocess.Popen([sys.executable, "-m", "vf", part.pid, "batch", fin, fout], cwd=HOME, env=env,
                                                stdout=subprocess.PIPE, stderr=subprocess.STDOUT), fout, len(chunk)))
             for p, fout, k in procs:
@@ -499,8 +553,8 @@ def interpreter_modes(part, tier):
                     part.known_hits[kk] += nn
                     part.known_examples.setdefault(kk, res["known_examples"].get(kk, {}))
                 for v in res["violations"]:
-                    v["env"] = {"PYTHONOPTIMIZE": level}
-                    v["note"] = ((v.get("note") or "") + " [only checked/observed here under %s, i.e. PYTHONOPTIMIZE=%s]" % (label, level)).strip()
+                    v["env"] = dict(menv)
+                    v["note"] = ((v.get("note") or "") + " [observed in a child interpreter: %s, i.e. %s]" % (label, menv)).strip()
                     part.violations.append(v)
     finally:
         shutil.rmtree(d, ignore_errors=True)
@@ -525,7 +579,7 @@ def write_replay(pid, v):
 
 def replay_in_env(pid, path, env):
     import subprocess
-    e = dict(os.environ, VERIF_REPO=REPO, VERIF_INTERP=env.get("PYTHONOPTIMIZE", "env"), PYTHONDONTWRITEBYTECODE="1")
+    e = dict(os.environ, VERIF_REPO=REPO, VERIF_INTERP="replay", PYTHONDONTWRITEBYTECODE="1")
     e.update(env)
     p = subprocess.run([sys.executable, "-m", "vf", pid, "replay", path], cwd=HOME, env=e, stdout=subprocess.PIPE, stderr=subprocess.STDOUT)
     return p.returncode, p.stdout.decode("utf-8", "replace")
